@@ -136,6 +136,8 @@ class AbsInt:
         self.call_log = []
         self.after_call = {}     # fn path suffix -> callable(ai, st, frame, b, bi, t, res)
         self.stmt_hook = None    # callable(ai, st, frame, b, bi, si, stmt, value)
+        self.walk_sites = {}
+        self.walks = {}          # value yielded by a for-loop iterator -> (kind, lo, hi, step, body, block)
         self.switch_hook = None  # callable(ai, st, frame, b, bi, discriminant vn)
         self.edges = {}          # (frame, body path) -> {(pred, succ): State} of the last fixpoint
         self.gen = {}
@@ -1231,6 +1233,19 @@ class AbsInt:
                             res.le.add(('lt', P, x))
                 except RecursionError:
                     pass
+        if hasattr(self, 'is_mult'):
+            # alignment of the phi: a shift both inputs are multiples of
+            ts = []
+            for stx in (old, new):
+                for fct in stx.le:
+                    if fct[0] == 'al' and fct[2] not in ts and len(ts) < 6:
+                        ts.append(fct[2])
+            for t in ts:
+                try:
+                    if self.is_mult(old, a, t) and self.is_mult(new, c, t):
+                        res.le.add(('al', P, t))
+                except RecursionError:
+                    pass
         j = joinitv(ia, ic)
         if j is None:
             return
@@ -1882,8 +1897,10 @@ class AbsInt:
             return None
         if fn.endswith('slice::<impl [T]>::chunks') or fn.endswith('slice::<impl [T]>::chunks_exact'):
             return ('agg', 'chunks', 0, (args[0], args[1], ('c', 1 if fn.endswith('exact') else 0)))
+        if fn.endswith('iter::Iterator::step_by') and len(args) == 2 and args[0][0] == 'agg' and args[0][1] == 'std::ops::Range':
+            return ('agg', 'stepby', 0, (args[0][3][0], args[0][3][1], args[1]))
         if fn.endswith('iter::IntoIterator::into_iter'):
-            if args[0][0] == 'agg' and args[0][1] in ('chunks', 'std::ops::Range'):
+            if args[0][0] == 'agg' and args[0][1] in ('chunks', 'std::ops::Range', 'stepby'):
                 return args[0]
             return None
         if fn.endswith('iter::Iterator::next'):
@@ -1891,6 +1908,20 @@ class AbsInt:
             if it[0] == 'agg' and it[1] == 'chunks' and it[3][1][0] == 'c':
                 ch = ('chunk', (frame, b.path, bi), it[3][1][1], it[3][2][1])
                 return ('opt', 'Option', ch, ('u', ('next', frame, b.path, bi), 'bool'))
+            if it[0] == 'agg' and it[1] == 'stepby':
+                lo, hi, step = it[3]
+                ilo, ihi = self.itvof(st, lo, 0), self.itvof(st, hi, 0)
+                if ilo and ihi:
+                    # yields lo, lo + step, ... below hi; the iterator value itself is not advanced (summary)
+                    x = ('u', ('ranged', ('it', frame, b.path, bi), ilo[0], max(ihi[1] - 1, ilo[0])), self.vn_ty(lo) or dty)
+                    st.le.add(('lt', x, hi))
+                    st.le.add(('le', lo, x))
+                    sh = self.pow2_shift(st, step) if hasattr(self, 'pow2_shift') else None
+                    if lo == ('c', 0) and sh is not None:
+                        st.le.add(('al', x, sh))
+                    self.walk_sites.setdefault((frame, b.path, bi), ('stepby', lo, hi, step, b.path, bi))
+                    self.walks[x] = self.walk_sites[(frame, b.path, bi)]
+                    return ('opt', 'Option', x, ('u', ('next', frame, b.path, bi), 'bool'))
             if it[0] == 'agg' and it[1] == 'std::ops::Range':
                 lo, hi = it[3][0], it[3][1]
                 ilo, ihi = self.itvof(st, lo, 0), self.itvof(st, hi, 0)
@@ -1903,6 +1934,8 @@ class AbsInt:
                     # what a half-open range yields lies inside it
                     st.le.add(('lt', x, hi))
                     st.le.add(('le', lo, x))
+                    self.walk_sites.setdefault((frame, b.path, bi), ('range', lo, hi, ('c', 1), b.path, bi))
+                    self.walks[x] = self.walk_sites[(frame, b.path, bi)]
                     return ('opt', 'Option', x, ('u', ('next', frame, b.path, bi), 'bool'))
             return None
         if fn.endswith('alloc::Layout::from_size_align') and len(args) == 2 and args[1][0] == 'c':
